@@ -24,6 +24,8 @@ type protoSpec struct {
 	Depth    int64
 	Redacts  string
 	Unsigned []byte
+	// Signatures is the proto-event's "signatures" member (a make_join template of another server may carry one)
+	Signatures []byte `json:",omitempty"`
 }
 
 func strp(s string) *string { return &s }
@@ -53,6 +55,7 @@ func buildEvent(ver gmsl.RoomVersion, p protoSpec, id *gen.Identity, ts time.Tim
 		Depth:      p.Depth,
 		Content:    p.Content,
 		Unsigned:   p.Unsigned,
+		Signature:  p.Signatures,
 	})
 	return eb.Build(ts, spec.ServerName(id.Server), gmsl.KeyID(id.KeyID), id.Priv)
 }
